@@ -14,6 +14,6 @@ trap 'rm -rf "$d"' EXIT INT TERM
 if [ $tests = 1 ]; then
   (cd "$d" && PYTHONPATH="$d" /venv/bin/python -m pytest -q -p no:cacheprovider --timeout=900 --continue-on-collection-errors 2>&1 | tail -1)
 fi
-DD_REPO="$d" "$@"
+DD_REPO="$d" VERIF_EVIDENCE_DIR="$d/.evidence" "$@"
 rc=$?
 exit $rc
